@@ -8,6 +8,7 @@
      (the tracker's stamp is at least as recent as the entry); if the clause would fail for (r, c), with
      c = ri_popx r, then c is dead and r does not have it. *)
 From HD Require Import common.Base http.Model pool.Model pool.Spec pool.Frames pool.FramesC05 pool.SortedC05 pool.CoreC05 pool.LinC05.
+From HD Require pool.FramesC02 pool.ProofsC02.
 Local Open Scope list_scope.
 
 (* ------------------------------------------------------------------ splitting the monitor *)
@@ -25,17 +26,39 @@ Definition chk2 (cfg : config) (m : mst) (e : ev) : bool :=
   | _ => true
   end.
 
-Lemma chk_split cfg m e : chk_ev_C05 cfg m e = chk1 m e && chk2 cfg m e.
+(* hand-back half of the first clause, relative to the tracker [m0] at the start of the op's events: a closed
+   connection that is handed out was not closed before its last hand-back (CoreC05.chk1 shows that the
+   ci_back of a closed connection does not move during the op) *)
+Definition chkB (m0 m : mst) (e : ev) : bool :=
+  match e with
+  | EHand r c _ _ _ _ =>
+      match nth_error (m_conns m) c with
+      | Some x => match ci_closed x, nth_error (m_conns m0) c with
+                  | Some cl, Some x0 => Nat.leb (ci_back x0) cl
+                  | _, _ => true
+                  end
+      | None => true
+      end
+  | _ => true
+  end.
+
+Lemma chk_combine cfg m0 m e : chk1 m0 m e = true -> chk2 cfg m e = true -> chkB m0 m e = true -> chk_ev_C05 cfg m e = true.
 Proof.
-  destruct e; try reflexivity. cbn [chk_ev_C05 chk1 chk2].
-  destruct (nth_error (m_conns m) c), (nth_error (m_reqs m) r); reflexivity.
+  destruct e; try reflexivity. cbn [chk_ev_C05 chk1 chk2 chkB].
+  destruct (nth_error (m_conns m) c) as [x|]; [|discriminate]. destruct (nth_error (m_reqs m) r) as [y|]; [|discriminate].
+  intros H1 H2 H3. apply andb_true_iff. split; [|exact H2].
+  destruct (ci_closed x) as [cl|]; [|reflexivity]. apply andb_true_iff in H1 as [Ha Hb].
+  destruct (nth_error (m_conns m0) c) as [x0|]; [|discriminate]. apply Nat.eqb_eq in Hb. apply Nat.leb_le in H3.
+  apply negb_true_iff in Ha. apply Nat.ltb_ge in Ha. apply negb_true_iff, Nat.ltb_ge. lia.
 Qed.
 
-Lemma evs_ok_and (f g h : mst -> ev -> bool) : (forall m e, h m e = f m e && g m e) ->
-  forall l m, evs_ok h m l = evs_ok f m l && evs_ok g m l.
+Lemma evs_ok_imp3 (f g h k : mst -> ev -> bool) :
+  (forall m e, f m e = true -> g m e = true -> h m e = true -> k m e = true) ->
+  forall l m, evs_ok f m l = true -> evs_ok g m l = true -> evs_ok h m l = true -> evs_ok k m l = true.
 Proof.
   intros H. induction l as [|e l IH]; intros m; cbn [evs_ok]; [reflexivity|].
-  rewrite H, IH. destruct (f m e), (g m e), (evs_ok f (track_ev m e) l); reflexivity.
+  intros Hf Hg Hh. apply andb_true_iff in Hf as [F1 F2]. apply andb_true_iff in Hg as [G1 G2]. apply andb_true_iff in Hh as [H1 H2].
+  apply andb_true_iff. split; [apply H; assumption|apply IH; assumption].
 Qed.
 
 Lemma evs_ok_all (f : mst -> ev -> bool) : forall l m,
@@ -265,7 +288,8 @@ Record StepF (s s' : state) : Prop := mkSF {
   f_W : forall c, W None s' c <= W None s c + newc s s' c;
   f_old : forall t c a, In (c, a) (p_idle (get_tok s' t)) ->
           In (c, a) (p_idle (get_tok s t)) \/ ~ In c (map fst (p_idle (get_tok s t)));
-  f_free : forall c, dead s c -> forall r, qfree (nth_error (reqs s) r) c -> qfree (nth_error (reqs s') r) c
+  f_free : forall c, dead s c -> forall r, qfree (nth_error (reqs s) r) c -> qfree (nth_error (reqs s') r) c;
+  f_kc : forall r, kstep (nth_error (reqs s) r) (nth_error (reqs s') r)
 }.
 
 Lemma W_idle_ge s t c : cnt (map fst (p_idle (get_tok s t))) c <= W None s c.
@@ -446,6 +470,7 @@ Proof.
     destruct (Nat.ltb_spec c (List.length (conns s))), (Nat.leb_spec (List.length (conns s)) c),
              (Nat.ltb_spec c (List.length (conns (step cfg s o)))); cbn [andb] in HW; lia.
   - intros c Hd r Hq. apply (j_free _ _ _ _ _ (HJ c) Hd r ltac:(discriminate) Hq).
+  - intros r. apply (j_kc _ _ _ _ _ (HJ 0) r). discriminate.
 Qed.
 
 Lemma plain_noHand s o c r : plainop o -> dead s c -> qfree (nth_error (reqs s) r) c -> noHand r c (out (step cfg s o)).
@@ -455,6 +480,7 @@ Lemma StepF_tick s dt : StepF s (step cfg s (Tick dt)).
 Proof.
   constructor; cbn [step]; auto.
   - intros c. change (W None (set_now (now (set_out [] s) + dt) (set_out [] s)) c) with (W None s c). lia.
+  - intros r. apply kstep_refl.
 Qed.
 
 Lemma mtok_out u s : mtok cfg u (set_out [] s) = mtok cfg u s.
@@ -487,6 +513,10 @@ Proof.
     specialize (Hid (mtok cfg u (set_out [] s))). rewrite Nat.eqb_refl in Hid.
     pose proof (W_idle_ge s (mtok cfg u (set_out [] s)) c) as H2. change (get_tok (set_out [] s)) with (get_tok s) in Hid.
     rewrite Hid, map_app, cnt_app, map_rev, cnt_rev in H2. lia.
+  - intros r. rewrite (is_reqs _ _ _ _ _ _ _ HS). cbn [reqs set_out]. rewrite nth_error_snoc.
+    destruct (Nat.ltb_spec r (List.length (reqs s))) as [Hlt|Hge]; [apply kstep_refl|].
+    assert (E : nth_error (reqs s) r = None) by (apply nth_error_None; exact Hge). rewrite E.
+    split; [intros c (ck & E' & _); discriminate E'|intros []].
 Qed.
 
 (* ------------------------------------------------------------------ the tracker's reading of the op *)
@@ -494,8 +524,16 @@ Lemma top_plain m o ob : plainop o -> same_meta m (track_op cfg m o ob) /\ sv (t
 Proof.
   intros Hp. destruct o; try contradiction; cbn [track_op]; try (split; [apply sm_refl|reflexivity]).
   - destruct (nth_error (m_reqs m) r) as [x|]; [|split; [apply sm_refl|reflexivity]].
-    destruct (ri_stat x); try (split; [apply sm_refl|reflexivity]);
-      (split; [apply sm_ri_upd; intros y; destruct (ri_stat y), (ri_dial y); auto|reflexivity]).
+    assert (Hri : forall mb, same_meta m mb -> sv mb = sv m ->
+              same_meta m (ri_upd (fun y => set_ri_pend false (set_ri_stat SCancelled
+                 match ri_stat y, ri_dial y with SLive, DsFlying => set_ri_aband true y | _, _ => y end)) r mb)
+              /\ sv (ri_upd (fun y => set_ri_pend false (set_ri_stat SCancelled
+                 match ri_stat y, ri_dial y with SLive, DsFlying => set_ri_aband true y | _, _ => y end)) r mb) = sv m).
+    { intros mb Hm Hs. split; [eapply sm_trans; [exact Hm|]; apply sm_ri_upd; intros y; destruct (ri_stat y), (ri_dial y); auto|exact Hs]. }
+    destruct (ri_stat x); try (split; [apply sm_refl|reflexivity]); try (apply Hri; [apply sm_refl|reflexivity]).
+    destruct (ri_popx x) as [c|]; [|apply Hri; [apply sm_refl|reflexivity]].
+    destruct (nth_error (m_conns m) c) as [y|]; [|apply Hri; [apply sm_refl|reflexivity]].
+    destruct (ci_share y); apply Hri; try apply sm_refl; try reflexivity; [apply sm_ci_upd|apply sv_ci_upd_id; reflexivity].
   - destruct (holder_conn m r); [|split; [apply sm_refl|reflexivity]]. split; [apply sm_ci_upd|apply sv_ci_upd_id; reflexivity].
   - split; [apply sm_ri_upd; intros y; destruct (ri_dial y), (ri_resolved y); auto|reflexivity].
   - split; [apply sm_ci_upd|apply sv_ci_upd_id; reflexivity].
@@ -658,22 +696,475 @@ Proof.
     destruct e; try contradiction; reflexivity.
 Qed.
 
-Definition Inv3 (m : mst) (s : state) : Prop := Inv cfg m s /\ Inv2 m s.
+
+(* ------------------------------------------------------------------ the hand-back half of the first clause *)
+(* a connection without any handle that no checkout stores: it can never be handed out again *)
+Definition FullDead (s : state) (c : nat) : Prop := dead s c /\ forall r, qfree (nth_error (reqs s) r) c.
+Definition kc_is (s : state) (r c : nat) : Prop := kcq (nth_error (reqs s) r) c.
+Definition shv (m : mst) : list bool := map ci_share (m_conns m).
+
+(* [w_B]: a connection whose tracker record is "closed before its last hand-back" (possible only by the
+   Cancel stamp of a dropped checkout) is dead;  [w_P]: a live request still has the non-multiplexed
+   connection its Issue took out of the idle list (unless that connection is dead);  [w_I]: the handle
+   accounting of pool/ProofsC02.v (a non-multiplexed connection occurs at most once over idle lists, channel
+   slots and popped connections) *)
+Record Inv4 (m : mst) (s : state) : Prop := mkInv4 {
+  w_I : FramesC02.I None [] m s;
+  w_B : forall c v cl, nth_error (cv m) c = Some v -> v_closed v = Some cl -> cl < v_back v -> FullDead s c;
+  w_Pex : forall r tm c, nth_error (pv m) r = Some (tm, Some c) -> c < List.length (cv m);
+  w_P : forall r tm c w, nth_error (pv m) r = Some (tm, Some c) -> nth_error (rv m) r = Some w -> v_stat w = SLive ->
+        nth_error (shv m) c = Some false -> FullDead s c \/ kc_is s r c
+}.
+
+Lemma FullDead_next s s' c : StepF s s' -> FullDead s c -> FullDead s' c.
+Proof. intros HF [Hd Hq]. split; [eapply dead_next; eauto|]. intros r. eapply f_free; eauto. Qed.
+
+(* consequences of the accounting of ProofsC02 *)
+Lemma cnt_two {A} (f : A -> list nat) c : forall l r r' q q', nth_error l r = Some q -> nth_error l r' = Some q' -> r <> r' ->
+  cnt (f q) c + cnt (f q') c <= cnt (flat_map f l) c.
+Proof.
+  induction l as [|a l IH]; intros [|r] [|r'] q q' H H' Hn; cbn [nth_error flat_map] in *; try discriminate; try congruence.
+  - inversion H; subst. rewrite cnt_app. pose proof (cnt_flat_map_nth f c l r' q' H'). lia.
+  - inversion H'; subst. rewrite cnt_app. pose proof (cnt_flat_map_nth f c l r q H). lia.
+  - rewrite cnt_app. assert (r <> r') by congruence. pose proof (IH r r' q q' H H' H0). lia.
+Qed.
+
+Lemma LA_le m s c : FramesC02.I None [] m s -> share_of s c = false ->
+  cnt (flat_map FramesC02.tokA (toks s)) c + cnt (flat_map FramesC02.reqA (reqs s)) c <= 1.
+Proof.
+  intros HI Hs. pose proof (FramesC02.I_lin _ _ _ _ HI c Hs) as H. unfold FramesC02.LA, FramesC02.reqs_x in H.
+  rewrite FramesC02.cnt_app in H. unfold FramesC02.cnt in H. unfold cnt. lia.
+Qed.
+
+Lemma reqA_free q c : cnt (FramesC02.reqA q) c = 0 -> qfree (Some q) c.
+Proof.
+  destruct q as [|ck| | |]; cbn [qfree]; auto. unfold FramesC02.reqA, FramesC02.ck_conns. rewrite cnt_app. intros H.
+  split.
+  - intros E. rewrite E in H. cbn [FramesC02.oconn] in H. rewrite cnt_cons in H. destruct (Nat.eq_dec c c); [lia|congruence].
+  - intros t E. rewrite E in H. cbn [FramesC02.oslot fst] in H. rewrite cnt_cons in H. destruct (Nat.eq_dec c c); [lia|congruence].
+Qed.
+
+Lemma qfree_nth s r c : (forall q, nth_error (reqs s) r = Some q -> cnt (FramesC02.reqA q) c = 0) -> qfree (nth_error (reqs s) r) c.
+Proof. intros H. destruct (nth_error (reqs s) r) as [q|] eqn:E; [|exact I]. apply reqA_free. apply H. reflexivity. Qed.
+
+Lemma I_only m s r ck c : FramesC02.I None [] m s -> share_of s c = false ->
+  nth_error (reqs s) r = Some (RCheckout ck) -> k_conn ck = Some c ->
+  (forall r', r' <> r -> qfree (nth_error (reqs s) r') c) /\ (forall t, k_slot ck <> Some (c, t)).
+Proof.
+  intros HI Hs Hq Hk. pose proof (LA_le m s c HI Hs) as HL.
+  assert (H1 : 1 <= cnt (FramesC02.oconn (k_conn ck)) c) by (rewrite Hk; cbn [FramesC02.oconn]; rewrite cnt_cons; destruct (Nat.eq_dec c c); [lia|congruence]).
+  split.
+  - intros r' Hn. apply qfree_nth. intros q' Hq'.
+    pose proof (cnt_two FramesC02.reqA c (reqs s) r r' _ _ Hq Hq' ltac:(congruence)) as H2.
+    cbn [FramesC02.reqA] in H2. unfold FramesC02.ck_conns in H2. rewrite cnt_app in H2. lia.
+  - intros t E. pose proof (cnt_flat_map_nth FramesC02.reqA c (reqs s) r _ Hq) as H2.
+    cbn [FramesC02.reqA] in H2. unfold FramesC02.ck_conns in H2. rewrite cnt_app, E in H2. cbn [FramesC02.oslot fst] in H2.
+    rewrite cnt_cons in H2. destruct (Nat.eq_dec c c); [lia|congruence].
+Qed.
+
+Lemma I_idle_free m s t c a : FramesC02.I None [] m s -> share_of s c = false -> In (c, a) (p_idle (get_tok s t)) ->
+  forall r, qfree (nth_error (reqs s) r) c.
+Proof.
+  intros HI Hs Hin r. pose proof (LA_le m s c HI Hs) as HL.
+  assert (H1 : 1 <= cnt (flat_map FramesC02.tokA (toks s)) c).
+  { pose proof (In_cnt_fst _ _ _ Hin) as H. destruct t as [|i]; [destruct Hin|]. cbn [get_tok] in *.
+    destruct (nth_error (toks s) i) as [p|] eqn:Ep.
+    - rewrite (nth_error_nth _ _ empty_tok Ep) in H. pose proof (cnt_flat_map_nth FramesC02.tokA c (toks s) i p Ep) as H2.
+      unfold FramesC02.tokA in H2 at 1. lia.
+    - rewrite nth_overflow in Hin by (apply nth_error_None; exact Ep). destruct Hin. }
+  apply qfree_nth. intros q Hq. pose proof (cnt_flat_map_nth FramesC02.reqA c (reqs s) r q Hq). lia.
+Qed.
+
+Lemma share_of_trk m s c : FramesC02.I None [] m s -> nth_error (shv m) c = Some false -> c < List.length (conns s) -> share_of s c = false.
+Proof.
+  intros HI Hs Hlt. unfold shv in Hs. rewrite nth_error_map' in Hs. destruct (nth_error (m_conns m) c) as [x|] eqn:Ex; [|discriminate].
+  cbn [option_map] in Hs. assert (Hsh : ci_share x = false) by congruence. clear Hs.
+  unfold share_of. destruct (get_conn s c) as [cn|] eqn:Ec; [|reflexivity].
+  rewrite <- (FramesC02.I_share _ _ _ _ HI c x cn Ex Ec). exact Hsh.
+Qed.
+
+(* tracker views: sharing flags, liveness *)
+Lemma shv_ci_upd_id f c m : (forall x, ci_share (f x) = ci_share x) -> shv (ci_upd f c m) = shv m.
+Proof. intros H. unfold shv, ci_upd. cbn [m_conns set_m_conns]. apply map_upd_nth_id. exact H. Qed.
+Lemma shv_track_ev m e : exists l, shv (track_ev m e) = shv m ++ l.
+Proof.
+  destruct e; cbn [track_ev]; try (exists []; rewrite app_nil_r; reflexivity).
+  - eexists. unfold shv. cbn [m_conns set_m_conns ri_upd set_m_reqs]. rewrite map_app. reflexivity.
+  - exists []. rewrite app_nil_r. rewrite shv_ci_upd_id by reflexivity. reflexivity.
+  - exists []. rewrite app_nil_r. destruct x as [|[]]; reflexivity.
+  - exists []. rewrite app_nil_r. apply shv_ci_upd_id. reflexivity.
+  - exists []. rewrite app_nil_r. apply shv_ci_upd_id. reflexivity.
+  - exists []. rewrite app_nil_r. destruct ok; [apply shv_ci_upd_id|]; reflexivity.
+Qed.
+Lemma shv_fold l : forall m, exists k, shv (fold_left track_ev l m) = shv m ++ k.
+Proof.
+  induction l as [|e l IH]; intros m; cbn [fold_left]; [exists []; rewrite app_nil_r; reflexivity|].
+  destruct (IH (track_ev m e)) as [k Hk]. destruct (shv_track_ev m e) as [k' Hk']. exists (k' ++ k). rewrite Hk, Hk', app_assoc. reflexivity.
+Qed.
+Lemma shv_offer_fold ob l : forall m, shv (fold_left (track_offer ob) l m) = shv m.
+Proof.
+  induction l as [|e l IH]; intros m; cbn [fold_left]; [reflexivity|]. rewrite IH.
+  destruct e; try reflexivity. destruct ok; try reflexivity. cbn [track_offer]. destruct (nth_error (m_conns m) c); [|reflexivity].
+  apply shv_ci_upd_id. reflexivity.
+Qed.
+Lemma shv_stamp prev sn : forall m, shv (track_idle_stamp prev m sn) = shv m.
+Proof.
+  unfold track_idle_stamp. induction (sn_idle sn) as [|c l IH]; intros m; cbn [fold_left]; [reflexivity|].
+  destruct (mem c (idle_of prev (sn_token sn))); [apply IH|]. rewrite IH. apply shv_ci_upd_id. reflexivity.
+Qed.
+Lemma shv_stamp_fold prev l : forall m, shv (fold_left (track_idle_stamp prev) l m) = shv m.
+Proof. induction l as [|sn l IH]; intros m; cbn [fold_left]; [reflexivity|]. rewrite IH. apply shv_stamp. Qed.
+Lemma shv_track_op m o ob : shv (track_op cfg m o ob) = shv m.
+Proof.
+  destruct o; cbn [track_op]; try reflexivity.
+  - destruct (nth_error (m_reqs m) r) as [x|]; [|reflexivity]. destruct (ri_stat x); try reflexivity.
+    destruct (ri_popx x) as [c|]; [|reflexivity]. destruct (nth_error (m_conns m) c) as [y|]; [|reflexivity].
+    destruct (ci_share y); [reflexivity|]. change (shv (ci_upd (set_ci_back (m_i m)) c m) = shv m). apply shv_ci_upd_id. reflexivity.
+  - destruct (holder_conn m r); [|reflexivity]. apply shv_ci_upd_id. reflexivity.
+  - apply shv_ci_upd_id. reflexivity.
+Qed.
+Lemma shv_track m o ob : exists k, shv (track cfg m o ob) = shv m ++ k.
+Proof.
+  destruct (shv_fold (o_events ob) (track_op cfg m o ob)) as [k Hk]. exists k.
+  assert (E : shv (track cfg m o ob) = shv (fold_left (track_idle_stamp (o_snap (m_prev m))) (o_snap ob)
+                 (fold_left (track_offer ob) (o_events ob) (fold_left track_ev (o_events ob) (track_op cfg m o ob))))) by reflexivity.
+  rewrite E, shv_stamp_fold, shv_offer_fold, Hk, shv_track_op. reflexivity.
+Qed.
+
+Lemma live_ev e l r w : nth_error (rv_ev e l) r = Some w -> v_stat w = SLive -> exists w0, nth_error l r = Some w0 /\ v_stat w0 = SLive.
+Proof.
+  destruct e; cbn [rv_ev]; intros H Hs; try (exists w; auto; fail).
+  - rewrite nth_error_upd_nth in H. destruct (Nat.eqb r0 r); [|exists w; auto].
+    destruct (nth_error l r); [|discriminate]. inversion H; subst. discriminate.
+  - rewrite nth_error_upd_nth in H. destruct (Nat.eqb r0 r); [|exists w; auto].
+    destruct (nth_error l r); [|discriminate]. inversion H; subst. discriminate.
+Qed.
+Lemma live_fold l : forall m r w, nth_error (rv (fold_left track_ev l m)) r = Some w -> v_stat w = SLive ->
+  exists w0, nth_error (rv m) r = Some w0 /\ v_stat w0 = SLive.
+Proof.
+  induction l as [|e l IH]; intros m r w H Hs; cbn [fold_left] in H; [eauto|].
+  destruct (IH _ _ _ H Hs) as (w1 & H1 & Hs1). rewrite rv_track_ev in H1. eapply live_ev; eauto.
+Qed.
+
+Lemma closed_fold l : forall m c v0 v, nth_error (cv m) c = Some v0 -> nth_error (cv (fold_left track_ev l m)) c = Some v ->
+  v_closed v = v_closed v0.
+Proof.
+  induction l as [|e l IH]; intros m c v0 v H0 H; cbn [fold_left] in H; [congruence|].
+  assert (Hlt : c < List.length (cv (track_ev m e))) by (rewrite cv_track_ev; pose proof (cv_ev_length m e (cv m)); pose proof (nth_error_lt _ _ _ H0); lia).
+  destruct (nth_error_ex _ _ Hlt) as [v1 H1]. rewrite (IH _ c v1 v H1 H).
+  rewrite cv_track_ev in H1. apply cv_ev_inv in H1 as [(v0' & E0 & Hc & _)|[E0 _]]; congruence.
+Qed.
+
+(* the tracker record of a connection after track_op *)
+Lemma top_cv m o ob c v0 : TI cfg m -> nth_error (cv (track_op cfg m o ob)) c = Some v0 ->
+  exists v, nth_error (cv m) c = Some v /\
+    ((v_closed v0 = v_closed v /\ v_back v0 = v_back v)
+     \/ (v_closed v = None /\ v_closed v0 = Some (m_i m) /\ v_back v0 = v_back v)
+     \/ (exists r0 tm w, o = Cancel r0 /\ nth_error (pv m) r0 = Some (tm, Some c) /\ nth_error (rv m) r0 = Some w /\ v_stat w = SLive
+                        /\ nth_error (shv m) c = Some false /\ v_closed v0 = v_closed v /\ v_back v0 = m_i m)).
+Proof.
+  intros HT H.
+  assert (Hsame : cv (track_op cfg m o ob) = cv m -> exists v, nth_error (cv m) c = Some v /\
+    ((v_closed v0 = v_closed v /\ v_back v0 = v_back v)
+     \/ (v_closed v = None /\ v_closed v0 = Some (m_i m) /\ v_back v0 = v_back v)
+     \/ (exists r0 tm w, o = Cancel r0 /\ nth_error (pv m) r0 = Some (tm, Some c) /\ nth_error (rv m) r0 = Some w /\ v_stat w = SLive
+                        /\ nth_error (shv m) c = Some false /\ v_closed v0 = v_closed v /\ v_back v0 = m_i m)))
+    by (intros E; rewrite E in H; exists v0; auto).
+  assert (Hclose : forall c', cv (track_op cfg m o ob) = upd_nth c' (closef (m_i m)) (cv m) -> exists v, nth_error (cv m) c = Some v /\
+    ((v_closed v0 = v_closed v /\ v_back v0 = v_back v)
+     \/ (v_closed v = None /\ v_closed v0 = Some (m_i m) /\ v_back v0 = v_back v)
+     \/ (exists r0 tm w, o = Cancel r0 /\ nth_error (pv m) r0 = Some (tm, Some c) /\ nth_error (rv m) r0 = Some w /\ v_stat w = SLive
+                        /\ nth_error (shv m) c = Some false /\ v_closed v0 = v_closed v /\ v_back v0 = m_i m))).
+  { intros c' E. rewrite E, nth_error_upd_nth in H. destruct (Nat.eqb c' c); [|exists v0; auto].
+    destruct (nth_error (cv m) c) as [v|]; [|discriminate]. inversion H; subst. exists v. split; [reflexivity|].
+    cbn [closef v_closed v_back]. destruct (v_closed v) as [cl|]; cbn [first_some]; auto. }
+  destruct o as [u p|r|r|r|r|r x|c0|c0| |dt]; try (apply Hsame; reflexivity).
+  - (* Cancel *)
+    cbn [track_op] in H. destruct (nth_error (m_reqs m) r) as [x|] eqn:Ex; [|exists v0; auto].
+    destruct (ri_stat x) eqn:Es; try (exists v0; auto; fail).
+    + destruct (ri_popx x) as [c'|] eqn:Ep; [|exists v0; auto].
+      destruct (nth_error (m_conns m) c') as [y|] eqn:Ey; [|exists v0; auto].
+      destruct (ci_share y) eqn:Esh; [exists v0; auto|].
+      change (nth_error (cv (ci_upd (set_ci_back (m_i m)) c' m)) c = Some v0) in H.
+      rewrite (cv_ci_upd _ (backf (m_i m)) c' m) in H by reflexivity. rewrite nth_error_upd_nth in H.
+      destruct (Nat.eqb_spec c' c) as [->|Hn]; [|exists v0; auto].
+      destruct (nth_error (cv m) c) as [v|]; [|discriminate]. inversion H; subst. exists v. split; [reflexivity|].
+      right. right. exists r, (ri_time x), (rv_of x). split; [reflexivity|].
+      split; [unfold pv; rewrite nth_error_map', Ex; cbn [option_map]; rewrite Ep; reflexivity|].
+      split; [unfold rv; rewrite nth_error_map', Ex; reflexivity|]. split; [exact Es|].
+      split; [unfold shv; rewrite nth_error_map', Ey; cbn [option_map]; rewrite Esh; reflexivity|]. cbn [backf v_closed v_back]. auto.
+  - destruct (upgrade_views cfg m r ob) as (_ & _ & [E|(c' & w & _ & _ & E)]); [apply Hsame, E|apply (Hclose c'), E].
+  - apply (Hclose c0). cbn [track_op]. apply close_view.
+Qed.
+
+(* the request records after track_op *)
+Lemma top_rv m o ob : (forall u p, o <> Issue u p) ->
+  rv (track_op cfg m o ob) = rv m \/
+  exists r0, o = Cancel r0 /\ rv (track_op cfg m o ob) = upd_nth r0 (fun w => mkRv SCancelled (v_at w) (v_time w) (v_popc w)) (rv m).
+Proof.
+  intros Hni. destruct o; try (left; reflexivity).
+  - exfalso. eapply Hni; reflexivity.
+  - cbn [track_op]. destruct (nth_error (m_reqs m) r) as [x|]; [|left; reflexivity].
+    assert (HF : forall mb, rv mb = rv m ->
+              rv (ri_upd (fun y => set_ri_pend false (set_ri_stat SCancelled
+                    match ri_stat y, ri_dial y with SLive, DsFlying => set_ri_aband true y | _, _ => y end)) r mb)
+              = upd_nth r (fun w => mkRv SCancelled (v_at w) (v_time w) (v_popc w)) (rv m)).
+    { intros mb E. rewrite <- E. apply rv_ri_upd. intros y. destruct (ri_stat y), (ri_dial y); reflexivity. }
+    destruct (ri_stat x); try (left; reflexivity); right; exists r; (split; [reflexivity|]); try (apply HF; reflexivity).
+    destruct (ri_popx x) as [c|]; [|apply HF; reflexivity]. destruct (nth_error (m_conns m) c) as [y|]; [|apply HF; reflexivity].
+    destruct (ci_share y); apply HF; reflexivity.
+  - left. cbn [track_op]. destruct (holder_conn m r); reflexivity.
+  - left. cbn [track_op]. apply rv_ri_upd_id. intros y. destruct (ri_dial y), (ri_resolved y); reflexivity.
+Qed.
+
+Lemma top_live m o ob r w0 : (forall u p, o <> Issue u p) ->
+  nth_error (rv (track_op cfg m o ob)) r = Some w0 -> v_stat w0 = SLive ->
+  o <> Cancel r /\ exists w, nth_error (rv m) r = Some w /\ v_stat w = SLive.
+Proof.
+  intros Hni Hw Hs. destruct (top_rv m o ob Hni) as [E|(r0 & -> & E)]; rewrite E in Hw.
+  - split; [|eauto]. intros ->. 
+    (* a cancelled request is not live afterwards *)
+    cbn [track_op] in E. clear Hni. revert E Hw. unfold rv at 2 3. rewrite nth_error_map'.
+    destruct (nth_error (m_reqs m) r) as [x|] eqn:Ex; [|discriminate]. cbn [option_map]. intros E Hw. inversion Hw; subst w0. cbn [rv_of v_stat] in Hs.
+    rewrite Hs in E.
+    assert (Hnth : nth_error (rv m) r = Some (rv_of x)) by (unfold rv; rewrite nth_error_map', Ex; reflexivity).
+    assert (Hc : forall mb, rv mb = rv m -> rv (ri_upd (fun y => set_ri_pend false (set_ri_stat SCancelled
+                    match ri_stat y, ri_dial y with SLive, DsFlying => set_ri_aband true y | _, _ => y end)) r mb) = rv m -> False).
+    { intros mb Eb E'. rewrite (rv_ri_upd _ (fun w => mkRv SCancelled (v_at w) (v_time w) (v_popc w))) in E'
+        by (intros y; destruct (ri_stat y), (ri_dial y); reflexivity).
+      rewrite Eb in E'. assert (H : nth_error (upd_nth r (fun w => mkRv SCancelled (v_at w) (v_time w) (v_popc w)) (rv m)) r = Some (rv_of x)) by (rewrite E'; exact Hnth).
+      rewrite nth_error_upd_nth_eq, Hnth in H. cbn [option_map] in H. inversion H as [H1]. cbn [rv_of] in H1. congruence. }
+    destruct (ri_popx x) as [c|]; [|apply (Hc m eq_refl E)]. destruct (nth_error (m_conns m) c) as [y|]; [|apply (Hc m eq_refl E)].
+    destruct (ci_share y); [apply (Hc m eq_refl E)|apply (Hc _ eq_refl E)].
+  - rewrite nth_error_upd_nth in Hw. destruct (Nat.eqb_spec r0 r) as [_|Hn].
+    + destruct (nth_error (rv m) r); [|discriminate]. inversion Hw; subst. discriminate.
+    + split; [congruence|eauto].
+Qed.
+
+
+Lemma StepF_any s o : Lin s -> StepF s (step cfg s o).
+Proof.
+  intros HL. destruct o as [u p|r|r|r|r|r x|c0|c0| |dt]; try (apply StepF_plain; [exact I|exact HL]).
+  - destruct (issue_spec cfg u p (set_out [] s) eq_refl) as (pre & found & qn & HS). eapply StepF_issue; eauto.
+  - apply StepF_tick.
+Qed.
+
+Lemma noHand_step s o c : FullDead s c -> forall r, noHand r c (out (step cfg s o)).
+Proof.
+  intros [Hd Hq] r. destruct o as [u p|r0|r0|r0|r0|r0 x|c0|c0| |dt]; try (apply plain_noHand; [exact I|exact Hd|apply Hq]).
+  - destruct (issue_spec cfg u p (set_out [] s) eq_refl) as (pre & found & qn & HS).
+    change (do_issue cfg u p (set_out [] s)) with (step cfg s (Issue u p)) in HS.
+    pose proof (is_od _ _ _ _ _ _ _ HS) as Hod. unfold od in Hod. rewrite Forall_forall in Hod.
+    intros a b d n Hin. apply (Hod _ Hin).
+  - intros a b d n [].
+Qed.
+
+Lemma conn_exists m s c v : Inv cfg m s -> nth_error (cv m) c = Some v -> c < List.length (conns s).
+Proof.
+  intros [_ HR] Hv. pose proof (rm_len _ _ _ HR) as H. pose proof (nth_error_lt _ _ _ Hv). unfold copen in H. rewrite map_length in H. lia.
+Qed.
+
+(* a connection that is "closed before its last hand-back" after track_op is dead after the op and is not handed out in it *)
+Lemma B_m0 m s o ob c v0 cl : Inv cfg m s -> Inv2 m s -> Inv4 m s ->
+  nth_error (cv (track_op cfg m o ob)) c = Some v0 -> v_closed v0 = Some cl -> cl < v_back v0 ->
+  FullDead (step cfg s o) c /\ forall r, noHand r c (out (step cfg s o)).
+Proof.
+  intros HI HI2 HI4 Hv Hcl Hlt. pose proof HI as [HT HR].
+  assert (Hfd : FullDead s c -> FullDead (step cfg s o) c /\ forall r, noHand r c (out (step cfg s o))).
+  { intros Hd. split; [eapply FullDead_next; [apply StepF_any, (v_lin _ _ HI2)|exact Hd]|apply noHand_step, Hd]. }
+  destruct (top_cv m o ob c v0 HT Hv) as (v & Hvm & [[Ec Eb]|[(En & Ec & Eb)|(r0 & tm & w & -> & Hp & Hw & Hs & Hsh & Ec & Eb)]]).
+  - apply Hfd. apply (w_B _ _ HI4 c v cl Hvm); [congruence|lia].
+  - exfalso. pose proof (ti_back _ _ HT c v Hvm). rewrite Ec in Hcl. inversion Hcl. lia.
+  - destruct (w_P _ _ HI4 r0 tm c w Hp Hw Hs Hsh) as [Hd|(ck & Hq & Hk)]; [apply Hfd, Hd|].
+    assert (Hex : c < List.length (conns s)) by (eapply conn_exists; eauto).
+    assert (Hop : is_open s c = false).
+    { destruct (is_open s c) eqn:E; [exfalso|reflexivity]. pose proof (rm_open _ _ _ HR c v (is_open_copen _ _ E) Hvm). congruence. }
+    assert (HW : W None s c <= 1) by (pose proof (v_lin _ _ HI2 c) as H; destruct (Nat.ltb_spec c (List.length (conns s))); lia).
+    assert (Hsf : share_of s c = false) by (eapply share_of_trk; [apply (w_I _ _ HI4)|exact Hsh|exact Hex]).
+    destruct (I_only m s r0 ck c (w_I _ _ HI4) Hsf Hq Hk) as [Hfree Hslot].
+    destruct (cancel_dead cfg s r0 ck c Hq Hk Hop HW Hex Hfree Hslot) as (D & Q & N). split; [split; assumption|exact N].
+Qed.
+
+Lemma cv_track m o ob s' : o_events ob = rev (out s') ->
+  cv (track cfg m o ob) = cv (cur (track_op cfg m o ob) s') /\ rv (track cfg m o ob) = rv (cur (track_op cfg m o ob) s').
+Proof.
+  intros E. unfold track. rewrite E. fold (cur (track_op cfg m o ob) s'). set (m1 := cur (track_op cfg m o ob) s').
+  destruct (offer_fold ob (rev (out s')) m1) as (A & B & _).
+  destruct (stamp_fold (o_snap (m_prev m)) (o_snap ob) (fold_left (track_offer ob) (rev (out s')) m1)) as (A' & B' & _).
+  split; [exact (eq_trans A' A)|exact (eq_trans B' B)].
+Qed.
+
+Lemma cv_of_nth m c x : nth_error (m_conns m) c = Some x -> nth_error (cv m) c = Some (cv_of x).
+Proof. intros H. unfold cv. rewrite nth_error_map', H. reflexivity. Qed.
+
+Lemma chkB_op m s o : Inv cfg m s -> Inv2 m s -> Inv4 m s ->
+  evs_ok (chkB (track_op cfg m o (observe (step cfg s o)))) (track_op cfg m o (observe (step cfg s o))) (rev (out (step cfg s o))) = true.
+Proof.
+  intros HI HI2 HI4. apply evs_ok_all. intros l1 e l2 El. destruct e; try reflexivity. cbn [chkB].
+  destruct (nth_error (m_conns (fold_left track_ev l1 (track_op cfg m o (observe (step cfg s o))))) c) as [x|] eqn:Ex; [|reflexivity].
+  destruct (ci_closed x) as [cl|] eqn:Ecl; [|reflexivity].
+  destruct (nth_error (m_conns (track_op cfg m o (observe (step cfg s o)))) c) as [x0|] eqn:Ex0; [|reflexivity].
+  apply Nat.leb_le. destruct (Nat.le_gt_cases (ci_back x0) cl) as [Hle|Hgt]; [exact Hle|exfalso].
+  pose proof (closed_fold l1 _ c _ _ (cv_of_nth _ _ _ Ex0) (cv_of_nth _ _ _ Ex)) as Hc. cbn [cv_of v_closed] in Hc.
+  destruct (B_m0 m s o (observe (step cfg s o)) c (cv_of x0) cl HI HI2 HI4 (cv_of_nth _ _ _ Ex0)) as [_ HN];
+    [cbn [cv_of v_closed]; congruence|cbn [cv_of v_back]; lia|].
+  apply (HN r reused open ready holders). apply (proj2 (in_rev _ _)). rewrite El. apply in_elt.
+Qed.
+
+Lemma len_cv_shv m : List.length (cv m) = List.length (shv m).
+Proof. unfold cv, shv. rewrite !map_length. reflexivity. Qed.
+Lemma len_pv_rv m : List.length (pv m) = List.length (rv m).
+Proof. unfold pv, rv. rewrite !map_length. reflexivity. Qed.
+
+Lemma Inv4_next m s o :
+  Inv cfg m s -> Inv2 m s -> Inv4 m s ->
+  G cfg None (track_op cfg m o (observe (step cfg s o))) (step cfg s o) ->
+  Inv cfg (track cfg m o (observe (step cfg s o))) (step cfg s o) ->
+  (forall r, r < List.length (pv m) ->
+     nth_error (pv (track_op cfg m o (observe (step cfg s o)))) r = nth_error (pv m) r /\
+     forall w0, nth_error (rv (track_op cfg m o (observe (step cfg s o)))) r = Some w0 -> v_stat w0 = SLive ->
+                exists w, nth_error (rv m) r = Some w /\ v_stat w = SLive) ->
+  (forall r tm c, List.length (pv m) <= r -> nth_error (pv (track_op cfg m o (observe (step cfg s o)))) r = Some (tm, Some c) ->
+     c < List.length (cv m) /\
+     (nth_error (shv m) c = Some false -> FullDead (step cfg s o) c \/ kc_is (step cfg s o) r c)) ->
+  Inv4 (track cfg m o (observe (step cfg s o))) (step cfg s o).
+Proof.
+  intros HI HI2 HI4 HG HI' Hold Hnew.
+  set (s' := step cfg s o) in *. set (ob := observe s') in *. set (m0 := track_op cfg m o ob) in *. set (m' := track cfg m o ob) in *.
+  destruct (cv_track m o ob s' eq_refl) as [Ecv Erv]. fold m0 m' in Ecv, Erv.
+  destruct (track_views m o ob) as (P1 & _). fold m0 m' in P1.
+  destruct (shv_track m o ob) as [ks Hks]. fold m' in Hks.
+  destruct HG as (_ & [_ (HL & HB & HN)] & _).
+  pose proof (StepF_any s o (v_lin _ _ HI2)) as HF. fold s' in HF.
+  constructor.
+  - apply (proj2 (ProofsC02.step_ok cfg m s o (w_I _ _ HI4))).
+  - intros c v' cl Hv' Hcl Hlt. rewrite Ecv in Hv'.
+    destruct (nth_error (cv m0) c) as [v0|] eqn:E0.
+    + destruct (HB c v0 v' E0 Hv') as [A B].
+      destruct (B_m0 m s o ob c v0 cl HI HI2 HI4 E0) as [Hd _]; [congruence|rewrite <- B; [exact Hlt|congruence]|exact Hd].
+    + rewrite (HN c v' E0 Hv') in Hcl. discriminate.
+  - intros r tm c Hr. rewrite P1 in Hr. rewrite len_cv_shv, Hks, app_length, <- len_cv_shv.
+    destruct (Nat.ltb_spec r (List.length (pv m))) as [Hlt|Hge].
+    + rewrite (proj1 (Hold r Hlt)) in Hr. pose proof (w_Pex _ _ HI4 r tm c Hr). lia.
+    + destruct (Hnew r tm c Hge Hr). lia.
+  - intros r tm c w' Hr Hw' Hs Hsh. rewrite P1 in Hr. rewrite Erv in Hw'.
+    destruct (live_fold _ _ _ _ Hw' Hs) as (w0 & Hw0 & Hs0). fold m0 in Hw0.
+    destruct (Nat.ltb_spec r (List.length (pv m))) as [Hlt|Hge].
+    + destruct (Hold r Hlt) as [Ep Hl]. rewrite Ep in Hr. destruct (Hl w0 Hw0 Hs0) as (w & Hw & Hsw).
+      pose proof (w_Pex _ _ HI4 r tm c Hr) as Hc. rewrite len_cv_shv in Hc.
+      rewrite Hks, nth_error_app1 in Hsh by exact Hc.
+      destruct (w_P _ _ HI4 r tm c w Hr Hw Hsw Hsh) as [Hd|Hk].
+      * left. eapply FullDead_next; eauto.
+      * destruct (proj1 (f_kc _ _ HF r) c Hk) as [Hk'|Hg]; [right; exact Hk'|exfalso].
+        destruct HI' as [_ HR']. fold m' s' in HR'.
+        assert (Hw'' : nth_error (rv m') r = Some w') by (rewrite Erv; exact Hw').
+        destruct (nth_error (reqs s') r) as [q|] eqn:Eq; [|exact Hg].
+        pose proof (rm_live _ _ _ HR' r w' q ltac:(discriminate) Hw'' Hs Eq) as Hlv. destruct q; cbn in Hg, Hlv; contradiction.
+    + destruct (Hnew r tm c Hge Hr) as [Hc Hp]. rewrite len_cv_shv in Hc. rewrite Hks, nth_error_app1 in Hsh by exact Hc. auto.
+Qed.
+
+
+Lemma pv_top_nonissue m o ob : (forall u p, o <> Issue u p) -> pv (track_op cfg m o ob) = pv m.
+Proof.
+  intros Hni.
+  assert (H : forall o', plainop o' -> pv (track_op cfg m o' ob) = pv m) by (intros o' Hp; apply (sm_pv _ _ (proj1 (top_plain m o' ob Hp)))).
+  destruct o as [u p|r|r|r|r|r x|c0|c0| |dt]; try (apply H; exact I).
+  - exfalso. eapply Hni; reflexivity.
+  - reflexivity.
+Qed.
+
+Lemma step4_nonissue m s o : (forall u p, o <> Issue u p) -> Inv cfg m s -> Inv2 m s -> Inv4 m s ->
+  G cfg None (track_op cfg m o (observe (step cfg s o))) (step cfg s o) ->
+  Inv cfg (track cfg m o (observe (step cfg s o))) (step cfg s o) ->
+  Inv4 (track cfg m o (observe (step cfg s o))) (step cfg s o).
+Proof.
+  intros Hni HI HI2 HI4 HG HI'. apply Inv4_next; auto.
+  - intros r Hlt. split; [rewrite (pv_top_nonissue m o _ Hni); reflexivity|].
+    intros w0 Hw0 Hs0. destruct (top_live m o _ r w0 Hni Hw0 Hs0) as [_ H]. exact H.
+  - intros r tm c Hge Hr. rewrite (pv_top_nonissue m o _ Hni) in Hr. apply nth_error_lt in Hr. lia.
+Qed.
+
+(* the tracker's ri_popx of a new request is the oldest connection its Issue removed from the idle list *)
+Lemma issue_popx m s u p pre found qn c : Inv2 m s ->
+  IssueSpec cfg u (set_out [] s) (step cfg s (Issue u p)) pre found qn ->
+  trk_popx m u (observe (step cfg s (Issue u p))) = Some c ->
+  exists a0 rp, rev pre = (c, a0) :: rp /\ In (c, a0) (p_idle (get_tok s (mtok cfg u s))).
+Proof.
+  intros HI HS Epx. destruct (tok_agree m s u (v_keys _ _ HI)) as [Etok _].
+  pose proof (is_idle _ _ _ _ _ _ _ HS (mtok cfg u s)) as Hid. rewrite mtok_out, Nat.eqb_refl in Hid.
+  change (get_tok (set_out [] s)) with (get_tok s) in Hid.
+  unfold trk_popx in Epx. rewrite (v_prev _ _ HI), Etok in Epx.
+  change (o_snap (observe (step cfg s (Issue u p)))) with (snapshot (step cfg s (Issue u p))) in Epx.
+  rewrite !idle_of_snapshot, Hid, map_app, map_length in Epx.
+  rewrite <- (map_length fst (p_idle (get_tok (step cfg s (Issue u p)) (mtok cfg u s)))), skipn_app_len in Epx.
+  destruct (rev pre) as [|[c0 a0] rp] eqn:Erp; cbn [map fst] in Epx; [discriminate|]. inversion Epx; subst c0.
+  exists a0, rp. split; [reflexivity|]. rewrite Hid. apply in_or_app. right. left. reflexivity.
+Qed.
+
+Lemma step4_issue m s u p : Inv cfg m s -> Inv2 m s -> Inv4 m s ->
+  G cfg None (track_op cfg m (Issue u p) (observe (step cfg s (Issue u p)))) (step cfg s (Issue u p)) ->
+  Inv cfg (track cfg m (Issue u p) (observe (step cfg s (Issue u p)))) (step cfg s (Issue u p)) ->
+  Inv4 (track cfg m (Issue u p) (observe (step cfg s (Issue u p)))) (step cfg s (Issue u p)).
+Proof.
+  intros HI HI2 HI4 HG HI'.
+  destruct (issue_spec cfg u p (set_out [] s) eq_refl) as (pre & found & qn & HS).
+  change (do_issue cfg u p (set_out [] s)) with (step cfg s (Issue u p)) in HS.
+  destruct (top_issue m u p (observe (step cfg s (Issue u p)))) as (Tpv & _ & _ & _).
+  destruct (issue_views cfg m u p (observe (step cfg s (Issue u p)))) as (popc & Trv & _).
+  apply Inv4_next; auto.
+  - intros r Hlt. split; [rewrite Tpv, nth_error_app1 by exact Hlt; reflexivity|].
+    intros w0 Hw0 Hs0. rewrite Trv, nth_error_app1 in Hw0 by (rewrite <- len_pv_rv; exact Hlt). eauto.
+  - intros r tm c Hge Hr. rewrite Tpv, nth_error_snoc in Hr.
+    destruct (Nat.ltb_spec r (List.length (pv m))); [lia|].
+    destruct (Nat.eqb_spec r (List.length (pv m))) as [->|]; [|discriminate]. inversion Hr as [[Etm Epx]].
+    destruct (issue_popx m s u p pre found qn c HI2 HS Epx) as (a0 & rp & Erp & Hin).
+    assert (Hpre : pre = rev rp ++ [(c, a0)]) by (rewrite <- (rev_involutive pre), Erp; reflexivity).
+    pose proof (Lin_exists s _ c a0 (v_lin _ _ HI2) Hin) as Hex.
+    assert (Hlen : List.length (cv m) = List.length (conns s)).
+    { rewrite <- (v_clen _ _ HI2). unfold cv, sv. rewrite !map_length. reflexivity. }
+    split; [lia|]. intros Hsh.
+    assert (Ereq : nth_error (reqs (step cfg s (Issue u p))) (List.length (pv m)) = Some qn).
+    { rewrite (is_reqs _ _ _ _ _ _ _ HS), (v_rlen _ _ HI2). cbn [reqs set_out]. rewrite nth_error_app2 by lia. rewrite Nat.sub_diag. reflexivity. }
+    destruct found as [cf|] eqn:Ef.
+    + right. destruct (is_found _ _ _ _ _ _ _ HS cf eq_refl) as (dis & a & Hp2 & _).
+      rewrite Hpre in Hp2. apply app_inj_tail in Hp2 as [_ E2]. inversion E2; subst cf a0.
+      unfold kc_is. rewrite Ereq. apply (is_kc _ _ _ _ _ _ _ HS c eq_refl).
+    + left.
+      assert (Hc1 : 1 <= cnt (map fst pre) c) by (rewrite Hpre, map_app, cnt_app; cbn [map fst]; rewrite cnt_cons; destruct (Nat.eq_dec c c); [lia|congruence]).
+      pose proof (is_W _ _ _ _ _ _ _ HS c) as HW. cbn [oconn] in HW. rewrite cnt_nil in HW.
+      change (W None (set_out [] s) c) with (W None s c) in HW. pose proof (v_lin _ _ HI2 c) as HLc.
+      destruct (Nat.ltb_spec c (List.length (conns s))); [|lia].
+      assert (Hsf : share_of s c = false) by (eapply share_of_trk; [apply (w_I _ _ HI4)|exact Hsh|exact Hex]).
+      pose proof (I_idle_free m s _ c a0 (w_I _ _ HI4) Hsf Hin) as Hfree.
+      split; [split; [lia|rewrite (is_len _ _ _ _ _ _ _ HS); exact Hex]|].
+      intros r'. rewrite (is_reqs _ _ _ _ _ _ _ HS). cbn [reqs set_out]. rewrite nth_error_snoc.
+      destruct (Nat.ltb r' (List.length (reqs s))); [apply Hfree|].
+      destruct (Nat.eqb r' (List.length (reqs s))); [|exact I]. apply (is_qn _ _ _ _ _ _ _ HS). discriminate.
+Qed.
+
+Definition Inv3 (m : mst) (s : state) : Prop := Inv cfg m s /\ Inv2 m s /\ Inv4 m s.
 
 Lemma Inv3_init : Inv3 m0 init.
 Proof.
-  split; [apply Inv_init|]. constructor; try reflexivity.
-  - intros [|r] tm px H; discriminate.
-  - intros [|c] st H; discriminate.
-  - intros [|[|t]] c a H; destruct H.
-  - intros [|r] tm c st H; discriminate.
-  - intros c. cbn. lia.
-  - apply IS_init.
+  split; [apply Inv_init|]. split.
+  - constructor; try reflexivity.
+    + intros [|r] tm px H; discriminate.
+    + intros [|c] st H; discriminate.
+    + intros [|[|t]] c a H; destruct H.
+    + intros [|r] tm c st H; discriminate.
+    + intros c. cbn. lia.
+    + apply IS_init.
+  - constructor.
+    + apply ProofsC02.I_init.
+    + intros [|c] v cl H; discriminate.
+    + intros [|r] tm c H; discriminate.
+    + intros [|r] tm c w H; discriminate.
 Qed.
 
-Theorem mon_C05_trace_from : forall ops s m, Inv3 m s -> mon_steps chk_C05 cfg m ops (trace_from cfg s ops) = true.
+Lemma Inv3_step m s o : Inv3 m s ->
+  chk_C05 cfg m o (observe (step cfg s o)) = true /\ Inv3 (track cfg m o (observe (step cfg s o))) (step cfg s o).
 Proof.
-  induction ops as [|o ops IH]; intros s m [HI HI2]; cbn [trace_from mon_steps]; [reflexivity|].
+  intros (HI & HI2 & HI4).
   pose proof (G_step cfg m s o (observe (step cfg s o)) HI) as HG.
   pose proof (Inv_track cfg m o (observe (step cfg s o)) (step cfg s o) HG eq_refl) as HI'.
   assert (H2 : Inv2 (track cfg m o (observe (step cfg s o))) (step cfg s o)
@@ -682,10 +1173,23 @@ Proof.
     - apply step_issue; assumption.
     - apply step_tick; assumption. }
   destruct H2 as [HI2' Hc2].
-  apply andb_true_iff. split.
-  - unfold chk_C05. cbn [observe o_events]. rewrite (evs_ok_and chk1 (chk2 cfg) (chk_ev_C05 cfg) (chk_split cfg)).
-    rewrite (proj1 HG), Hc2. reflexivity.
-  - apply IH. split; assumption.
+  assert (H4 : Inv4 (track cfg m o (observe (step cfg s o))) (step cfg s o)).
+  { destruct o; try (apply step4_nonissue; try assumption; intros u0 p0 E; discriminate E).
+    apply step4_issue; assumption. }
+  split; [|split; [exact HI'|split; assumption]].
+  unfold chk_C05. cbn [observe o_events].
+  apply (evs_ok_imp3 (chk1 (track_op cfg m o (observe (step cfg s o)))) (chk2 cfg)
+                     (chkB (track_op cfg m o (observe (step cfg s o)))) (chk_ev_C05 cfg)).
+  - intros m1 e. apply chk_combine.
+  - exact (proj1 HG).
+  - exact Hc2.
+  - apply chkB_op; assumption.
+Qed.
+
+Theorem mon_C05_trace_from : forall ops s m, Inv3 m s -> mon_steps chk_C05 cfg m ops (trace_from cfg s ops) = true.
+Proof.
+  induction ops as [|o ops IH]; intros s m H; cbn [trace_from mon_steps]; [reflexivity|].
+  destruct (Inv3_step m s o H) as [Hc H']. rewrite Hc. cbn [andb]. apply IH, H'.
 Qed.
 
 End T.
